@@ -51,8 +51,9 @@ class HWorld(object):
         self.tmp = tempfile.mkdtemp(prefix="harv-", dir=common.scratch("harv"))
         self.engine = variant.get("engine", "joblib")
         ext = {"joblib": ".dmp", "h5netcdf": ".h5"}[self.engine]
-        self.data_name = os.path.join(self.tmp, "data" + (ext if variant.get("ext", True) else ""))
-        self.file = os.path.join(self.tmp, "data" + ext)
+        stem = "data_T0.5" if variant.get("ext") == "dotted" else "data"      # a dot, but no known extension
+        self.data_name = os.path.join(self.tmp, stem + (ext if variant.get("ext", True) is True else ""))
+        self.file = os.path.join(self.tmp, stem + ext)
 
         def fn(a, b, c=7):
             return float(VER[0] * 1000 + 10 * a + b)
